@@ -89,13 +89,17 @@ def run(ctx):
     # (c) matrix
     kinds = ["DD", "HF:4000", "PART:120:2:16:2,118"] if ctx.tier == "quick" else ["DD", "HD", "HF:4000", "HF:9001", "PART:120:2:16:2,118", "PART:130:2:16:2,60;62,60"]
     flavs = [0, 1, 5] if ctx.tier == "quick" else gen.FLAVOURS
-    modes = [(1, 0, "dev-ro"), (0, 1, "mount-ro"), (1, 1, "both")]
+    # driver-ro: the device is asked for read-write, but the medium is write-protected - the driver can only get read-only access and reports
+    # it (as adfInitDumpDevice does on EACCES / EROFS); native devices only (the harness runs as root: a dump file can always be opened rw)
+    modes = [(1, 0, "dev-ro"), (0, 1, "mount-ro"), (1, 1, "both"), (0, 0, "driver-ro")]
     for kind in kinds:
         for flav in flavs:
             pre = base_image(ctx, kind, flav)
             for (dro, mro, mname) in modes:
+                if mname == "driver-ro" and kind.startswith("HF"):
+                    continue
                 calls = mutating_calls()
-                L = list(pre) + ["dump $W/before", "mountdev %d" % dro, "wlog $W/log", "mount 0 %d" % mro]
+                L = list(pre) + ["dump $W/before"] + (["wprotect 1"] if mname == "driver-ro" else []) + ["mountdev %d" % dro, "wlog $W/log", "mount 0 %d" % mro]
                 idx = {}
                 for (cname, cl) in calls:
                     if cname == "bootinst" and not kind in ("DD", "HD"):
@@ -168,7 +172,7 @@ def run(ctx):
         h.dirs[()] = {gen.fold(flav, b"fileA"): (b"fileA", "file"), gen.fold(flav, b"dirD"): (b"dirD", "dir"), gen.fold(flav, b"emptyD"): (b"emptyD", "dir")}
         h.dirs[(b"dirD",)] = {}
         h.dirs[(b"emptyD",)] = {}
-        L = base_image(ctx, "DD", flav) + ["dump $W/before", "mountdev %d" % dro, "wlog $W/log", "mount 0 %d" % mro]
+        L = base_image(ctx, "DD", flav) + ["dump $W/before"] + (["wprotect 1"] if mname == "driver-ro" else []) + ["mountdev %d" % dro, "wlog $W/log", "mount 0 %d" % mro]
         for _ in range(40):
             L += h.step()
         L += h.close_all() + ["umount", "wlog off", "umountdev", "dump $W/after"]
@@ -182,7 +186,7 @@ def run(ctx):
             ctx.fail("crash", "harness exit %d in a read-only history" % rc, {"script": script}, actual=(out[-3:], err[-300:]))
         elif nw or file_sha(os.path.join(wd, "before")) != file_sha(os.path.join(wd, "after")):
             ctx.fail("oracle", "device written during a history on a read-only %s" % mname, {"script": script}, expected="no write", actual="%d writes" % nw)
-    rule = ("guard calls with read-only flags; matrix of every mutating API call x {device ro, mount ro, both} x flavour x device kind (return value, write log, "
+    rule = ("guard calls with read-only flags; matrix of every mutating API call x {device ro, mount ro, both, read-write asked on a write-protected medium (the driver forces read-only)} x flavour x device kind (return value, write log, "
             "image hash); formatting a read-only device; random histories on read-only mounts; distinct = distinct call line / matrix cell / history")
     return common.finish(ctx, proof, rule, extra_cov={"exhaustive": False},
                          assumptions=["a dump device opened read-only is fopen'ed 'rb' (adfInitDumpDevice); not part of the model",
